@@ -17,7 +17,8 @@ func (r *FragRule) RunPass(ctx *Context, pass Pass) {
 		nfaCons := r.Expr.NFACons(ctx)
 		nfaCons.E.Accept = true
 		actions := &mode.Actions{
-			Pos: r.Bounds().Begin,
+			Pos:       r.Bounds().Begin,
+			NonGreedy: nfaCons.HasNonGreedy(),
 		}
 
 		hasDiscard := false
